@@ -51,6 +51,10 @@ pub enum Mutation {
     Trailing(usize),
 }
 
+pub fn apply_pub(arch: &Arch, m: &Mutation) -> Option<Vec<u8>> {
+    apply(arch, m)
+}
+
 fn apply(arch: &Arch, m: &Mutation) -> Option<Vec<u8>> {
     let mut b = arch.bytes.clone();
     match m {
